@@ -13,7 +13,7 @@ func init() {
 	jobs = append(jobs, job{props: []string{"C18"}, fn: genC18})
 }
 
-func nodeString(n ast.Node) string {
+func c18NodeString(n ast.Node) string {
 	var sb strings.Builder
 	printer.Fprint(&sb, fset, n)
 	return strings.Join(strings.Fields(sb.String()), " ")
@@ -26,8 +26,8 @@ func c18Bool(b bool) string {
 	return "false"
 }
 
-// callArgs returns the printed arguments of every call of `callee` inside fd.
-func callArgs(fd *ast.FuncDecl, callee string) [][]string {
+// c18CallArgs returns the printed arguments of every call of `callee` inside fd.
+func c18CallArgs(fd *ast.FuncDecl, callee string) [][]string {
 	var res [][]string
 	ast.Inspect(fd.Body, func(n ast.Node) bool {
 		if c, ok := n.(*ast.CallExpr); ok && exprString(c.Fun) == callee {
@@ -59,7 +59,7 @@ func genC18() {
 			fail("account.%s not found", fn)
 			return
 		}
-		args := callArgs(fd, "concatAndHash")
+		args := c18CallArgs(fd, "concatAndHash")
 		if len(args) != 1 {
 			fail("account.%s: expected one concatAndHash call", fn)
 			return
@@ -100,7 +100,7 @@ func genC18() {
 		return true
 	})
 	l.p("def concatAndHashWrites : List String := %s", leanStrList(writes))
-	l.p("def concatAndHashIsSha256 : Bool := %s", c18Bool(strings.Contains(nodeString(cah.Body), "h := sha256.New()")))
+	l.p("def concatAndHashIsSha256 : Bool := %s", c18Bool(strings.Contains(c18NodeString(cah.Body), "h := sha256.New()")))
 
 	// ---- auctioneer/client.go ----
 	auct := pkgFiles("auctioneer")
@@ -123,8 +123,8 @@ func genC18() {
 		return leanStrList(s)
 	}
 	l.p("/-- arguments of the connectServerStream calls in connectAndAuthenticate / HandleServerShutdown -/")
-	l.p("def firstConnectArgs : List String := %s", flat(callArgs(caa, "c.connectServerStream")))
-	l.p("def reconnectArgs : List String := %s", flat(callArgs(hss, "c.connectServerStream")))
+	l.p("def firstConnectArgs : List String := %s", flat(c18CallArgs(caa, "c.connectServerStream")))
+	l.p("def reconnectArgs : List String := %s", flat(c18CallArgs(hss, "c.connectServerStream")))
 
 	// the retry loop: condition, wait guard, update statements after a failure
 	var loop *ast.ForStmt
@@ -138,10 +138,10 @@ func genC18() {
 		fail("connectServerStream: retry loop not found")
 		return
 	}
-	l.p("def retryLoopHeader : String := %q", nodeString(loop.Init)+"; "+exprString(loop.Cond)+"; "+nodeString(loop.Post))
+	l.p("def retryLoopHeader : String := %q", c18NodeString(loop.Init)+"; "+exprString(loop.Cond)+"; "+c18NodeString(loop.Post))
 	var upd []string
 	for _, st := range loop.Body.List {
-		s := nodeString(st)
+		s := c18NodeString(st)
 		switch x := st.(type) {
 		case *ast.AssignStmt:
 			if strings.HasPrefix(s, "backoff") {
@@ -155,7 +155,7 @@ func genC18() {
 					if _, isExpr := b.(*ast.ExprStmt); isExpr {
 						continue // logging
 					}
-					body = append(body, nodeString(b))
+					body = append(body, c18NodeString(b))
 				}
 				upd = append(upd, "if "+c+" { "+strings.Join(body, "; ")+" }")
 			}
@@ -183,7 +183,7 @@ func genC18() {
 		case *ast.IfStmt:
 			routing = append(routing, "if "+exprString(x.Cond))
 		case *ast.SendStmt:
-			routing = append(routing, nodeString(x))
+			routing = append(routing, c18NodeString(x))
 		case *ast.UnaryExpr:
 			if s := exprString(x); s == "<-s.incomingChan" {
 				routing = append(routing, s)
@@ -201,7 +201,7 @@ func genC18() {
 		}
 		var s []string
 		for _, st := range fd.Body.List {
-			s = append(s, nodeString(st))
+			s = append(s, c18NodeString(st))
 		}
 		return strings.Join(s, "; ")
 	}
@@ -221,7 +221,7 @@ func genC18() {
 		case *ast.RangeStmt:
 			hs = append(hs, "range "+exprString(x.X))
 		case *ast.ReturnStmt:
-			hs = append(hs, nodeString(x))
+			hs = append(hs, c18NodeString(x))
 		}
 		return true
 	})
@@ -231,7 +231,7 @@ func genC18() {
 	ast.Inspect(caa.Body, func(n ast.Node) bool {
 		switch x := n.(type) {
 		case *ast.AssignStmt:
-			if s := nodeString(x); strings.HasPrefix(s, "c.subscribedAccts[") {
+			if s := c18NodeString(x); strings.HasPrefix(s, "c.subscribedAccts[") {
 				ca = append(ca, s)
 			}
 		case *ast.CallExpr:
@@ -273,10 +273,10 @@ func genC18() {
 	var reaction []string
 	ast.Inspect(sh.Body, func(n ast.Node) bool {
 		cc, ok := n.(*ast.CommClause)
-		if !ok || cc.Comm == nil || !strings.Contains(nodeString(cc.Comm), "StreamErrChan") {
+		if !ok || cc.Comm == nil || !strings.Contains(c18NodeString(cc.Comm), "StreamErrChan") {
 			return true
 		}
-		reaction = append(reaction, nodeString(cc.Comm))
+		reaction = append(reaction, c18NodeString(cc.Comm))
 		for _, st := range cc.Body {
 			if is, ok := st.(*ast.IfStmt); ok {
 				reaction = append(reaction, "if "+exprString(is.Cond))
@@ -285,7 +285,7 @@ func genC18() {
 						reaction = append(reaction, exprString(c))
 					}
 					if r, ok := m.(*ast.ReturnStmt); ok {
-						reaction = append(reaction, nodeString(r))
+						reaction = append(reaction, c18NodeString(r))
 					}
 					return true
 				})
